@@ -77,8 +77,8 @@ func statusFor(w *world, claimed int) consensus.NewStatus {
 }
 
 type p3stats struct {
-	cases, accepted, refAccept, clean int64
-	verdicts                          sync.Map
+	cases, accepted, refAccept, clean, panics int64
+	verdicts                                  sync.Map
 }
 
 func (s *p3stats) verdict(k string) {
@@ -145,7 +145,9 @@ func runValidateBlock(rp *reporter, st *p3stats, w *world, nv int) {
 					var err error
 					if p, pv := vk.Catch(func() { err = exec.ValidateBlock(status, block) }); p {
 						err = fmt.Errorf("panic: %v", pv)
-						r.Note("ValidateBlock panicked: %v on %v", pv, describe(w, tab, asg, claimed))
+						if atomic.AddInt64(&st.panics, 1) <= 3 {
+							r.Note("ValidateBlock panicked: %v on %v", pv, describe(w, tab, asg, claimed))
+						}
 					}
 					ref := w.refCommit(slots, claimed, H, 0, relax{})
 					atomic.AddInt64(&st.cases, 1)
